@@ -109,7 +109,7 @@ func c07Pair(seed uint64, shape string) *lib.Pair {
 func c07Cases(tier string, seed uint64, flavor string) []lib.Case {
 	npairs := 60
 	if tier == "thorough" {
-		npairs = 600
+		npairs = 1200
 	}
 	if flavor == "race" {
 		npairs = 40
